@@ -171,7 +171,7 @@ impl Language for Swift {
         } else if generic_types.contains(base) {
             base.into()
         } else {
-            format!("{}{}", self.prefix, base)
+            swift_keyword_aware_rename(format!("{}{}", self.prefix, base)).into_owned()
         })
     }
 
